@@ -166,6 +166,58 @@ def noTie (w : List Ev) : Bool :=
     | .opn false i => !w.contains (.opn true i)
     | _ => true
 
+/-! ### Malformed hint comments (any text) -/
+
+/-- How the token regex reads a raw token, if it accepts it. -/
+def classify (t : Str) : Option Tok := (matchLabel t).map fun p => ⟨p.1, p.2.1, p.2.2⟩
+
+/-- An opening mark of label `L` (`L...`, `+L...`, `-L...`). -/
+def Tok.isOpen (k : Tok) (L : Str) : Bool := k.after && k.before != .dots && k.label == L
+/-- A closing mark of label `L` (`...L`). -/
+def Tok.isClose (k : Tok) (L : Str) : Bool := !k.after && k.before == .dots && k.label == L
+/-- `...L...`: "Illegal last part". -/
+def Tok.illegal (k : Tok) : Bool := k.after && k.before == .dots
+
+/-- A token the matcher rejects (or of the illegal form `...L...`). -/
+def rejected (t : Str) : Bool :=
+  match classify t with
+  | none => true
+  | some k => k.illegal
+
+def tokCount (f : Tok → Bool) (toks : List (Nat × Str)) : Nat :=
+  toks.countP fun p => match classify p.2 with
+    | some k => f k
+    | none => false
+
+def opensOf (L : Str) (toks : List (Nat × Str)) : Nat := tokCount (·.isOpen L) toks
+def closesOf (L : Str) (toks : List (Nat × Str)) : Nat := tokCount (·.isClose L) toks
+
+/-- The hint tokens of a text are malformed: some token is rejected, or for some label a closing
+mark comes with no opening mark still open before it, or an opening mark is never closed. -/
+def Malformed (toks : List (Nat × Str)) : Prop :=
+  (∃ p ∈ toks, rejected p.2 = true) ∨
+    ∃ L, (∃ pre, pre <+: toks ∧ opensOf L pre < closesOf L pre) ∨ opensOf L toks ≠ closesOf L toks
+
+/-- Executable form of `Malformed` for the labels occurring in the tokens. -/
+def labelsIn (toks : List (Nat × Str)) : List Str :=
+  toks.filterMap fun p => (classify p.2).map (·.label)
+
+def unbalancedB (L : Str) (toks : List (Nat × Str)) : Bool :=
+  (List.range (toks.length + 1)).any (fun n => opensOf L (toks.take n) < closesOf L (toks.take n)) ||
+    opensOf L toks != closesOf L toks
+
+def malformedB (toks : List (Nat × Str)) : Bool :=
+  toks.any (fun p => rejected p.2) || (labelsIn toks).any fun L => unbalancedB L toks
+
+/-- No label is opened both for addition and for deletion on one line (finding 13's corner). -/
+def TieFree (toks : List (Nat × Str)) : Prop :=
+  ∀ p ∈ toks, ∀ q ∈ toks, ∀ kp kq, classify p.2 = some kp → classify q.2 = some kq →
+    p.1 = q.1 → kp.label = kq.label → kp.after = true → kq.after = true →
+    kp.before ≠ .dots → kq.before ≠ .dots → (kp.before = .minus ↔ kq.before = .minus)
+
+/-- The numbered hint tokens of a text. -/
+def hintToks (c : Str) : List (Nat × Str) := numberedTokens 1 (splitNL c)
+
 /-! ### Hygiene: what `decorate` assumes of the program and of the labels -/
 
 def noM13 (l : Str) : Bool := !hasInfix m13 l
